@@ -269,3 +269,34 @@ _m("C02",
    "characters (opaque by C15), the read side (C01).",
    "identity value-flow between digest input and sink + gate-cut reachability + symbolic length/staging checks",
    "exhaustive static analysis of the write path's structure in every configuration (necessary conditions)")
+
+_m("C16",
+   "(a) Algorithm plumbing: every digest builder is IntegrityOpts::new().algorithm(<the constructor's own Algorithm parameter>); "
+   "every caller of those constructors passes opts.algorithm.unwrap_or(Sha256); every *_with_algo function forwards its "
+   "algorithm parameter unchanged. (b) The digest is not salted: the may-depend closure of every IntegrityOpts::input argument "
+   "contains only the data buffer, the staging buffer / file handle fields and I/O amounts — no key, time, size or metadata "
+   "(content paths depend only on (cache, integrity): C15 b). (c) The address handed back is the computed one: commits return "
+   "the publication's digest or the insert's result, and the insert returns the integrity it indexed. (d) Each entry is "
+   "verified under its own integrity: readers' checkers are built from the requested integrity and whole-buffer reads check "
+   "against it (reused C01 R2/R4b). (e) Re-publication over an existing address goes through the same atomic rename, never an "
+   "in-place write (reused C03 a).",
+   "That ssri's digests equal the standard ones (needs an independent implementation and execution); the number of files after a "
+   "history; byte-identity of a stored copy after re-publication.",
+   "identity / may-depend value flow for algorithm and digest-input provenance; clauses (d),(e) reuse the C01/C03 analyses",
+   "exhaustive static analysis of digest/address provenance in every configuration (necessary conditions)")
+
+_m("C19",
+   "In the link_to configurations: (a) never modifies, never copies — the mutating effects reachable from every public link_to "
+   "entry point, expanded to that entry point's own parameters, are within {mkdir of the content parent, symlink(absolute "
+   "target → content path), index append}; effects rooted at the target parameter are read-only (open read-only, stat, reads) "
+   "apart from being the symlink's source; no WriteData/Copy/CreateTemp/Persist of target bytes. (b) Hashes what it reads, all "
+   "of it — each linker read/poll_read cannot return success without feeding builder.input the caller's buffer bounded by what "
+   "was read from its own file (only bypass: nothing read); commit drains the target (`consume()?`) before the linker commit on "
+   "every path, and consume returns Ok only after a read through the linker returned 0. (c) Declared size and integrity are "
+   "enforced by the same guards as ordinary commits (C08 rules on both link_to commits) and the default declared size is "
+   "metadata(target).len() of the entry point's target. (d) A failed symlink is accepted only if exists(same destination). "
+   "(e) The path stored in the symlink is std::path::absolute(<caller's target>), never the relative path verbatim.",
+   "What happens when the target is changed or removed after linking (C01's verification turns that into an error at run time); "
+   "symlink semantics of the platform.",
+   "parametric effect summaries at the link_to entry points + gate-cut reachability + provenance of the stored target",
+   "exhaustive static analysis in the link_to configurations (necessary conditions)")
